@@ -58,6 +58,11 @@ def parse_directive(text):
     body = '\n'.join(lines[1:])
     i, n = 0, len(body)
     while i < n:
+        mu = re.compile(r'\s*use\s+([^\n]*)(\n|$)').match(body, i)
+        if mu:
+            d['uses'] += mu.group(1).split()
+            i = mu.end()
+            continue
         mm = re.compile(r'\s*(\w+)\s*((?:"[^"]*"|[^\s{"]+)?(?:\s*#\d+)?)\s*(\{|$|\n)', re.M).match(body, i)
         if not mm:
             if body[i:].strip() == '':
@@ -167,6 +172,8 @@ def apply_sections(unit, text, d, fn_name, what):
             if k < 1 or k > len(loops):
                 raise AnchorError(f'{what}: loop {k} not found (function has {len(loops)} loops)')
             edits.append((loops[k - 1][1], '\n' + s['text'] + '\n'))
+        elif nm == 'fn_attrs':
+            edits.append((fs, s['text'] + '\n'))
         elif nm == 'body_start':
             edits.append((fh + 1, '\n' + s['text'] + '\n'))
         elif nm == 'body_end':
@@ -264,6 +271,22 @@ def process(unit_name, tpl_path=None, out_dir=None):
         d = parse_directive(mm.group(1))
         if d['kind'] == 'include':
             return open(os.path.join(VERIF, 'contracts', d['args']['path'])).read()
+        if d['kind'] == 'import':
+            other = open(os.path.join(VERIF, 'units', d['args']['unit'] + '.rs.tpl')).read()
+            a = other.index('//@ body-begin')
+            b = other.index('//@ body-end')
+            mu2 = re.search(r'//@\s*unit\s+(\S+)\s+props=(\S+)', other)
+            body = other[a:b]
+            # imported fn/macro directives keep the props of their home unit unless they name their own
+            def addprops(m2):
+                head = m2.group(0)
+                if ' props=' in head:
+                    return head
+                if head.rstrip().endswith('@*/'):
+                    return head.rstrip()[:-3].rstrip() + ' props=' + mu2.group(2) + ' @*/'
+                return head + ' props=' + mu2.group(2)
+            body = re.sub(r'/\*@ (?:fn|macro|item) [^\n]*', addprops, body)
+            return body
         return mm.group(0)
     for _ in range(3):
         tpl = DIRECTIVE_RE.sub(inc, tpl)
